@@ -340,6 +340,64 @@ def check_pairs(case):
     return viols, evals, keys
 
 
+def top_two_molecules(da, db):
+    lines = ["[ defaults ]", "1 2 no 1.0 1.0", "[ atomtypes ]", "P 72.0 0.0 A 0.30 4.0"]
+    for mname, d in (("MA", da), ("MB", db)):
+        lines += ["[ moleculetype ]", f"{mname} 1", "[ atoms ]"]
+        lines += [f"{i + 1} P 1 R {nm} {i + 1} 0.0 72.0" for i, nm in enumerate(d["names"])]
+        if d["bonds"]:
+            lines.append("[ bonds ]")
+            lines += [f"{a + 1} {b + 1} 1 {l} 1000" for a, b, l in d["bonds"]]
+        if d["angles"]:
+            lines.append("[ angles ]")
+            lines += [f"{a + 1} {b + 1} {c + 1} 1 {v} 100" for a, b, c, v in d["angles"]]
+    lines += ["[ system ]", "v", "[ molecules ]", "MA 1", "MB 2", "MA 1"]
+    return "\n".join(lines) + "\n"
+
+
+def check_two_molecules(case):
+    """the same residue name with different content in two molecule types (and repeated instances)"""
+    viols, evals, keys = [], 0, []
+    defs = residue_defs()
+    part, nparts = case["part"], case["nparts"]
+    pairs = [(a, b) for a in range(len(defs)) for b in range(len(defs)) if a < b]
+    for pi, (a, b) in enumerate(pairs):
+        if pi % nparts != part or (case["tier"] == "quick" and pi % 3):
+            continue
+        da, db = defs[a], defs[b]
+        evals += 1
+        case1 = dict(kind="twomol1", a=da["id"], b=db["id"])
+        try:
+            top, recs = gen_templates(top_two_molecules(da, db), None, 0)
+        except Exception as exc:  # noqa
+            viols.append(crash_violation(exc, case1, assertion="templates-generated"))
+            continue
+        keys_by_def = {}
+        for mm in top.molecules:
+            d = da if mm.mol_name == "MA" else db
+            for node in mm.nodes:
+                key = mm.nodes[node].get("template")
+                keys_by_def.setdefault(d["id"], set()).add(key)
+                tmpl = mm.templates.get(key)
+                if tmpl is None or sorted(tmpl) != sorted(d["names"]):
+                    viols.append(dict(assertion="template-holds-the-residue-atom-names", tags=["same-resname-different-content"],
+                                      message=f"molecule {mm.mol_name}: template atoms {None if tmpl is None else sorted(tmpl)} residue atoms {sorted(d['names'])}", case=case1, detail={}))
+                    continue
+                cog = np.mean([np.asarray(v, dtype=float) for v in tmpl.values()], axis=0)
+                if np.abs(cog).max() > 1e-9:
+                    viols.append(dict(assertion="template-centre-of-geometry-zero", tags=[], message=f"{mm.mol_name}: {cog}", case=case1, detail={}))
+                if not top.volumes.get(key, 0) > 0:
+                    viols.append(dict(assertion="size-positive", tags=[], message=f"{mm.mol_name}: size {top.volumes.get(key)}", case=case1, detail={}))
+        ka, kb = keys_by_def.get(da["id"], set()), keys_by_def.get(db["id"], set())
+        if len(ka) != 1 or len(kb) != 1:
+            viols.append(dict(assertion="isomorphic-residues-share-template", tags=[], message=f"instances of one molecule type got several keys {ka} {kb}", case=case1, detail={}))
+        elif iso(da, db) != (ka == kb) and (iso(da, db) or sorted(da["names"]) != sorted(db["names"])):
+            viols.append(dict(assertion="isomorphic-residues-share-template" if iso(da, db) else "different-atom-names-different-template", tags=["same-resname-different-content"],
+                              message=f"{da['id']} vs {db['id']}: isomorphic={iso(da, db)} keys {ka} {kb}", case=case1, detail={}))
+        keys.append(f"twomol:{da['id']}|{db['id']}")
+    return viols, evals, keys
+
+
 def check_vs_residues(case):
     viols, evals, keys = [], 0, []
     base = dict(id="vsbase", names=["A", "B", "C", "D", "V"], bonds=[(0, 1, 0.3), (1, 2, 0.3), (2, 3, 0.3)], angles=[(0, 1, 2, 110.0), (1, 2, 3, 110.0)])
@@ -422,15 +480,17 @@ def cases(tier):
     for p in range(nparts):
         yield dict(kind="pairs", part=p, nparts=nparts, tier=tier)
     yield dict(kind="vsres", tier=tier)
+    for p in range(8):
+        yield dict(kind="twomol", part=p, nparts=8, tier=tier)
     yield dict(kind="user", tier=tier)
 
 
-FUNCS = {"vs": check_vs, "pairs": check_pairs, "vsres": check_vs_residues, "user": check_user}
+FUNCS = {"twomol": check_two_molecules, "vs": check_vs, "pairs": check_pairs, "vsres": check_vs_residues, "user": check_user}
 
 
 def run_case(case):
     if case["kind"] not in FUNCS:
-        fam = {"vs1": "vs", "pair1": "pairs", "vsres1": "vsres", "user1": "user"}[case["kind"]]
+        fam = {"vs1": "vs", "pair1": "pairs", "vsres1": "vsres", "user1": "user", "twomol1": "twomol"}[case["kind"]]
         out = []
         for part in range(24 if fam == "pairs" else 1):
             v, _, _ = FUNCS[fam](dict(kind=fam, tier="thorough", part=part, nparts=24))
